@@ -85,7 +85,8 @@ func TestWorker(t *testing.T) {
 		t.Fatal(err)
 	}
 	out.StuckFlag = &simsched.Stuck
-	out.Watch(120 * time.Second)
+	out.SimActive = simsched.Active
+	out.Watch(45 * time.Second)
 	kinds := job.KindList(Kinds)
 	mk := func(i int) (*Case, *choice.Source, *choice.Source) {
 		c := &Case{Property: "C09", Engine: "simhist", Kind: kinds[i%len(kinds)]}
@@ -101,9 +102,19 @@ func TestWorker(t *testing.T) {
 			if err := json.Unmarshal(raw, &c); err != nil {
 				t.Fatal(err)
 			}
+			if c.Tape == nil && c.Sched == nil && c.Seed != 0 {
+				runOne(t, &c, choice.New(c.Seed, fmt.Sprint("c09-ops-", c.Index)), choice.New(c.Seed, fmt.Sprint("c09-sched-", c.Index)), out, i)
+				continue
+			}
 			runOne(t, &c, choice.Replay(c.Tape), choice.Replay(c.Sched), out, i)
 		}
 		out.Finish("done", len(job.Cases))
+	case "dump":
+		var want int
+		fmt.Sscan(job.Params["case"], &want)
+		c, _, _ := mk(want)
+		c.Seed, c.Index = job.Seed, want
+		out.Emit(map[string]any{"t": "dump", "replay": c})
 	case "explore":
 		deadline := time.Now().Add(time.Duration(job.BudgetS * float64(time.Second)))
 		for i := job.Start; (job.MaxCases == 0 || i < job.MaxCases) && time.Now().Before(deadline); i++ {
